@@ -747,7 +747,7 @@ var c12Hosts = []string{
 //   * the escaped form, and the twice escaped form, of every host name of c12Hosts;
 //   * quotes and backslashes at the ends; text that looks like the rest of the file;
 //   * very long names.
-func c12JsonHosts() []string {
+func c12JsonHosts(thorough bool) []string {
 	esc := func(h string) string { // the writer's escaped form of h, as text
 		b, err := json.Marshal(h)
 		if err != nil || len(b) < 2 {
@@ -796,7 +796,11 @@ func c12JsonHosts() []string {
 		add(h)
 	}
 	add(strings.Repeat("a", 4096))
-	add(strings.Repeat("h.example", 7300) + ":443") // longer than 65535 bytes
+	add(strings.Repeat("h.example", 1900) + ":443")
+	if thorough {
+		// (the Lean model reads lists byte by byte: this one costs its driver 20 s)
+		add(strings.Repeat("h.example", 7300) + ":443") // longer than 65535 bytes
+	}
 	add(strings.Repeat("<&>\"\\\n\u2028", 700))
 	{
 		var b strings.Builder
@@ -818,7 +822,7 @@ var c12JsonHostList []string
 
 func c12GenHost(g *G) []byte {
 	if c12JsonHostList == nil {
-		c12JsonHostList = c12JsonHosts()
+		c12JsonHostList = c12JsonHosts(false)
 	}
 	switch g.R.Intn(12) {
 	case 0, 1, 2:
@@ -1038,7 +1042,7 @@ func c12Gen(g *G) {
 		}
 	}
 	// host names made of JSON-significant text: stored, read by the same and by a fresh loader, byte for byte
-	jsonHosts := c12JsonHosts()
+	jsonHosts := c12JsonHosts(g.Thorough())
 	for i, h := range jsonHosts {
 		shapes := []string{"abs"}
 		if g.Thorough() {
